@@ -1,5 +1,5 @@
 """Shared helpers for the graph-algorithm drivers (C06, C07, ...): building real dask graphs from
-the abstract graphs of specs/common/Graphs.tla (keys 1..n, dependency sets), a wall-clock guard
+the abstract graphs of specs/common/Graphs.tla (keys 1..n, dependency sets), a CPU-time guard
 that turns a non-terminating dask call into an observation, and seeded random graph generators.
 
 An abstract graph is `deps`: a list of n lists; deps[i] holds the (1-based) keys node i+1 refers
@@ -19,26 +19,28 @@ def _on_alarm(signum, frame):
 
 
 def guarded(fn, seconds=3.0):
-    """Run fn() under a wall-clock limit.  Returns ("ok", value) | ("raised", exc) | ("hang", None).
-    The limit is only a termination guard (generous by orders of magnitude), never a performance
-    judgement.  Must be called from the main thread of the (possibly forked) process."""
-    old = signal.signal(signal.SIGALRM, _on_alarm)
-    signal.setitimer(signal.ITIMER_REAL, seconds)
+    """Run fn() under a CPU-time limit.  Returns ("ok", value) | ("raised", exc) | ("hang", None).
+    The limit counts the CPU time of this process only (ITIMER_VIRTUAL), so a loaded machine cannot
+    fake a hang; it is a termination guard for pure computations (orders of magnitude above their
+    normal cost), never a performance judgement.  Must be called from the main thread of the
+    (possibly forked) process."""
+    old = signal.signal(signal.SIGVTALRM, _on_alarm)
+    signal.setitimer(signal.ITIMER_VIRTUAL, seconds)
     try:
         try:
             v = fn()
-            signal.setitimer(signal.ITIMER_REAL, 0)
+            signal.setitimer(signal.ITIMER_VIRTUAL, 0)
             return "ok", v
         except Hang:
             return "hang", None
         except Exception as ex:  # noqa: BLE001 - every exception of dask is an observation
-            signal.setitimer(signal.ITIMER_REAL, 0)
+            signal.setitimer(signal.ITIMER_VIRTUAL, 0)
             return "raised", ex
     except Hang:             # alarm fired between the inner handlers
         return "hang", None
     finally:
-        signal.setitimer(signal.ITIMER_REAL, 0)
-        signal.signal(signal.SIGALRM, old)
+        signal.setitimer(signal.ITIMER_VIRTUAL, 0)
+        signal.signal(signal.SIGVTALRM, old)
 
 
 def fn(*args):
